@@ -223,7 +223,7 @@ class LiftGen:
     def expr(s, depth):
         """int-typed expression + trace"""
         s.n += 1; me = s.n
-        opts = ['var', 'call0'] + ([f for f in ('call1', 'call2', 'callcall', 'add', 'div', 'sub', 'mul', 'if', 'let', 'tuple', 'while', 'whilematch', 'unitop') if f in s.forms] if depth > 0 else [])
+        opts = ['var', 'call0'] + ([f for f in ('call1', 'call2', 'callcall', 'add', 'div', 'sub', 'mul', 'if', 'let', 'tuple', 'while', 'whilematch', 'unitop', 'array', 'constr', 'dyncall', 'neg', 'matchop') if f in s.forms] if depth > 0 else [])
         k = s.ex.choose([(True, o) for o in opts]); GEN_USED.add(k)
         if k == 'var': return s.var('v%d' % me), []
         if k == 'call0': return s.call('g%d' % me, []), [('call', 'g%d' % me)]
@@ -240,6 +240,34 @@ class LiftGen:
         if k in ('add', 'div', 'sub', 'mul'):
             a, ta = s.expr(depth - 1); b, tb = s.expr(depth - 1)
             return s.L('EBinary', op=Agg(s.BOP.key, s.BOP.vindex({'add': 'Add', 'div': 'Div', 'sub': 'Sub', 'mul': 'Mul'}[k]), []), lhs=mkbox(a), rhs=mkbox(b), ty=s.ty('TInt32')), ta + tb
+        if k == 'array':
+            # an array literal handed to a function: items left to right, then the call
+            a, ta = s.expr(depth - 1); b, tb = s.expr(depth - 1); aty = s.ty('TArray', 2, mkbox(s.ty('TInt32')))
+            arr = s.L('EArray', items=PyVec([a, b]), ty=aty)
+            fty = s.ty('TFunc', PyVec([aty]), mkbox(s.ty('TInt32')))
+            return s.L('ECall', func=mkbox(s.L('EVar', name=mkstr('k%d' % me), ty=fty)), args=PyVec([arr]), ty=s.ty('TInt32')), ta + tb + [('call', 'k%d' % me)]
+        if k == 'constr':
+            # a struct value S { a, b } handed to a function: initialisers left to right, then the call
+            tt = s.W.tt; CO = tt.find_adt(['common', 'Constructor'], 'compiler'); SCn = tt.find_adt(['common', 'StructConstructor'], 'compiler'); TI = tt.find_adt(['tast', 'TastIdent'], 'compiler')
+            a, ta = s.expr(depth - 1); b, tb = s.expr(depth - 1); sty = s.ty('TStruct', mkstr('S'))
+            val = s.L('EConstr', constructor=Agg(CO.key, CO.vindex('Struct'), [Agg(SCn.key, 0, [Agg(TI.key, 0, [mkstr('S')])])]), args=PyVec([a, b]), ty=sty)
+            fty = s.ty('TFunc', PyVec([sty]), mkbox(s.ty('TInt32')))
+            return s.L('ECall', func=mkbox(s.L('EVar', name=mkstr('k%d' % me), ty=fty)), args=PyVec([val]), ty=s.ty('TInt32')), ta + tb + [('call', 'k%d' % me)]
+        if k == 'dyncall':
+            # d.m(a, b) on a trait object: receiver, arguments left to right, then the dynamic call
+            TI = s.W.tt.find_adt(['tast', 'TastIdent'], 'compiler')
+            a, ta = s.expr(depth - 1); b, tb = s.expr(depth - 1)
+            recv = s.L('EVar', name=mkstr('d%d' % me), ty=s.ty('TDyn', mkstr('Tr')))
+            return s.L('EDynCall', trait_name=Agg(TI.key, 0, [mkstr('Tr')]), method_name=Agg(TI.key, 0, [mkstr('m')]), receiver=mkbox(recv), args=PyVec([a, b]), ty=s.ty('TInt32')), ta + tb + [('EDynCall',)]
+        if k == 'neg':
+            a, ta = s.expr(depth - 1)
+            return s.L('EUnary', op=Agg(s.UOP.key, s.UOP.vindex('Neg'), []), expr=mkbox(a), ty=s.ty('TInt32')), ta
+        if k == 'matchop':
+            # match A { 0 => B, _ => C } in operand position: the scrutinee once, then exactly one arm
+            LA = s.W.tt.find_adt(['lift', 'LiftArm'], 'compiler')
+            sc, tsc = s.expr(depth - 1); b, tb = s.expr(depth - 1); c_, tc = s.expr(depth - 1)
+            zero = s.L('EPrim', value=Agg(s.PR.key, s.PR.vindex('Int32'), [0]), ty=s.ty('TInt32'))
+            return s.L('EMatch', expr=mkbox(sc), arms=PyVec([Agg(LA.key, 0, [zero, b])]), default=ms.some(mkbox(c_)), ty=s.ty('TInt32')), tsc + [('match', [tb], tc)]
         if k == 'tuple':
             a, ta = s.expr(depth - 1); b, tb = s.expr(depth - 1)
             tup = s.L('ETuple', items=PyVec([a, b]), ty=s.ty('TTuple', PyVec([s.ty('TInt32'), s.ty('TInt32')])))
@@ -686,6 +714,8 @@ def obligations():
             Ob('O9.2-block-dce-if2', 'block-level DCE: 2 statements, then if/else, + return', ob_block_dce, ('thorough',), 200, dict(nstmts=2, depth=1, forms=('atom', 'call')))]
     obs += [Ob('O9.3-anf-order-arith-d1', 'ANF evaluates the operands of + - * / left to right', ob_anf_order, ('quick', 'thorough'), 3, dict(depth=1, forms=['call1', 'add', 'div', 'sub', 'mul'], top='call')),
             Ob('O9.4-go-lowering-arith-d1', 'Go lowering keeps the operand order of + - * /', ob_go_lowering, ('quick', 'thorough'), 5, dict(depth=1, forms=['call1', 'add', 'div', 'sub', 'mul'], top='call'))]
+    obs += [Ob('O9.3-anf-order-agg-d1', 'ANF evaluates array items, struct initialisers, dynamic-call arguments, negation operands and match scrutinees once, left to right', ob_anf_order, ('quick', 'thorough'), 5, dict(depth=1, forms=['call1', 'array', 'constr', 'dyncall', 'neg', 'matchop'], top='call'))]
+    obs += [Ob('O9.4-go-lowering-agg-d1', 'Go lowering keeps the order of array items, negation operands and match scrutinees in operand position (struct literals and dynamic calls need type definitions in the Go environment: ANF level only, O9.3-agg)', ob_go_lowering, ('quick', 'thorough'), 5, dict(depth=1, forms=['call1', 'array', 'neg', 'matchop'], top='call'))]
     obs += [Ob('O9.3-anf-order-go', 'ANF keeps a `go` in tail / let / if position', ob_anf_order, ('quick', 'thorough'), 1, dict(depth=0, forms=[], top='go')),
             Ob('O9.4-go-lowering-go', 'Go lowering emits the go statement for a `go` in tail / let / if position', ob_go_lowering, ('quick', 'thorough'), 1, dict(depth=0, forms=[], top='go'))]
     obs += [Ob('O9.4-go-lowering-call-d1', 'Go lowering keeps the effect trace: f(A1, A2), depth 1 (incl. while / if / let)', ob_go_lowering, ('quick', 'thorough'), 10, dict(depth=1, forms=['call1', 'add', 'if', 'let', 'while', 'whilematch', 'unitop'], top='call')),
